@@ -103,6 +103,17 @@ def sharing_sets(t, v, N, must, may, tv=None, nested_N=None):
             if oracle.conforms(a, v, tv, shallow=True):
                 return sharing_sets(a, v, N, must, may, tv, nested_N)
         return
+    if k == "stype":
+        ann = tinfo.stype_annotations(ti.type)
+        if ann:
+            # the value handed out by _serialize() is treated according to its annotation; if the object hands out its own
+            # containers, a no-copy set passes them on by reference
+            m2, y2, own = set(), set(), {}
+            sharing_sets(ann[0], v._serialize(), N, m2, y2, tv, nested_N)
+            containers(v, own)  # only containers of the object itself count (what _serialize() creates afresh does not)
+            must.update(m2 & set(own))
+            may.update(y2 & set(own))
+        return
     if k == "seq":
         ek = tinfo.info(ti.args[0], tv).kind
         if ti.origin in N and conv_free(ti.args[0], N, tv):
